@@ -26,6 +26,8 @@ func runC11(c *Ctx, r *Report) {
 	l := c.L
 	defer c11r14(c, r)
 	defer c11r15(c, r)
+	defer c11r16(c, r)
+	defer c07r11(c, r) // --accept-nth cuts the fields on the text without the escape sequences
 	ec := l.Fn("fzf", "extractColor")
 	next := l.Fn("fzf", "nextAnsiEscapeSequence")
 	interp := l.Fn("fzf", "interpretCode")
